@@ -57,7 +57,8 @@ class Checker:
         self.mod = module
         self.doc = doc
         self.live = [n for n in hugr]
-        self.rank = {n.idx: r for r, n in enumerate(self.live)}
+        from ..engines.c_persist import doc_positions
+        self.rank = doc_positions(ctx, hugr, doc, "model-export") or {n.idx: r for r, n in enumerate(self.live)}
         self.sem = {n.idx: R.op_sem(doc["nodes"][self.rank[n.idx]]) for n in self.live}
         self.port_name = {}  # ("in"/"out", idx, off) -> name
         self.symbols = {}  # node idx -> symbol name
